@@ -212,3 +212,13 @@ theorem gae_congr_suffix (n t0 last : ℕ) (d₁ w₁ d₂ w₂ A₁ A₂ : ℕ 
   rwa [Nat.sub_sub_self h01] at this
 
 end PyvcSum
+
+/- ---- softmax / log-softmax identities (contracts/C13.py: facts `explog.*`; C13) ---- -/
+
+/-- `explog.log_of_softmax`: log (exp x / S) = x - log S for S > 0 -/
+theorem c13_log_of_softmax (x S : ℝ) (hS : 0 < S) : Real.log (Real.exp x / S) = x - Real.log S := by
+  rw [Real.log_div (Real.exp_pos x).ne' hS.ne', Real.log_exp]
+
+/-- `explog.exp_of_log_softmax`: exp (x - log S) = exp x / S for S > 0 -/
+theorem c13_exp_of_log_softmax (x S : ℝ) (hS : 0 < S) : Real.exp (x - Real.log S) = Real.exp x / S := by
+  rw [Real.exp_sub, Real.exp_log hS]
